@@ -1,8 +1,10 @@
 #!/bin/sh
-# usage: tools/run_seed.sh <seed-dir-name> <property>...   applies seeded/<name>/patch.diff to /repo, runs the checks, undoes it
+# usage: tools/run_seed.sh <seed-dir-name> <property>...   applies seeded/<name>/patch.diff to /repo, runs the checks, undoes it,
+# then re-runs the checks on the restored tree so that evidence/ never holds results of a seeded tree
 seed=$1; shift
 cd /verif
 git -C /repo diff --quiet || { echo "/repo has uncommitted changes"; exit 9; }
 git -C /repo apply /verif/seeded/$seed/patch.diff || { echo "patch does not apply"; exit 9; }
 for p in "$@"; do ./check $p --tier quick; echo "seed=$seed property=$p rc=$?"; done
 git -C /repo checkout -- .
+for p in "$@"; do ./check $p --tier quick > /dev/null 2>&1; echo "restored tree: property=$p rc=$?"; done
